@@ -269,7 +269,9 @@ func s3DrawPred(F int) s3Pred {
 	case 2:
 		return s3Pred{kind: 2, e: rt.Choice("d", 3)}
 	}
-	fn := 2 + rt.Choice("fn", F-1)
+	// forbidden induced subgraph on fn vertices; fn = 1 forbids every non-empty graph
+	// ("fewer than one vertex"), fn = 0 forbids everything including the empty graph
+	fn := rt.Choice("fn", F+1)
 	f := make([]byte, fn*(fn-1)/2)
 	for k := range f {
 		f[k] = rt.ConcreteByte(rt.Bit("f"))
